@@ -573,6 +573,7 @@ theorem step_sweep {t : Table} {s : Abs} (h : Rel t s) (now : Int) :
   refine ⟨?_, h.claims.filter _, h.cacheTimeout, h.claimTimeout⟩
   show s.learned.filter _ = t.cache.filter _
   rw [h.learned]
+  simp only [Generated.cacheLive]
 
 theorem cacheInsert_fresh' (c : List CacheEntry) (x : CacheEntry)
     (hc : c.find? (fun v => v.addr = x.addr) = none) : cacheInsert c x = x :: c := by
